@@ -94,6 +94,20 @@ def explore(res, tier, seed, model_ok=True):
     res.exhaustive['histories_depth_le_%d' % depth] = nexh
     for i in range(nrand):
         scs.append(gen_core.gen_history(rng, n_steps=rng.randint(1, 10), timers=rng.random() < 0.5))
+    # a timeout that has fired must end the iteration: silent server, no EOF in the script
+    ntimeout = 0
+    for close_at in (0, 1, 2, 3, 4):
+        for ct in (2, 5, 9):
+            for poll in (1, 5):
+                b = Scenario([], poll=poll, prate=0, ctimeout=ct)
+                env = [('wait', 0, ('data', b.good_reply()))] + [('wait', poll, None)] * ((ct // poll) + 4)
+                scs.append(Scenario(env, {close_at: [('close', 1000, ('b', b'bye'))]}, poll=poll, prate=0, ctimeout=ct)); ntimeout += 1
+    for pt in (2, 4, 7):
+        for poll in (1, 3):
+            b = Scenario([], poll=poll, prate=2, ptimeout=pt)
+            env = [('wait', 0, ('data', b.good_reply()))] + [('wait', poll, None)] * ((pt // poll) + 4)
+            scs.append(Scenario(env, {}, poll=poll, prate=2, ptimeout=pt)); ntimeout += 1
+    res.count('timeout_must_terminate', ntimeout)
     pairs = coreutil.run_pairs(scs, model_ok)
     for k, (js, line, real, model) in enumerate(pairs):
         if isinstance(real, dict):
